@@ -50,15 +50,18 @@ def variants(prop, case):
         return [{"via": "flat"}, {"via": RVIAS[h % len(RVIAS)], "how": ["fn", "nps"][(h // 16) % 2], "layout": ["C", "F", "T", "strided"][(h // 32) % 4]}]
     if op.startswith("bit_"):
         return [{"indt": ["u8", "u4", "u2", "u1", "i8", "i4"][h % 6], "npidx": bool(h & 8), "listkind": ["list", "array"][(h // 16) % 2], "again": bool(h & 64),
-                 "repack": bool(h & 128), "pre_w": [0, 1, 2, 3][(h // 256) % 4]}]
+                 "repack": bool(h & 128), "pre_w": [0, 1, 2, 3][(h // 256) % 4], "npw": [None, "i8", "i4", "u1"][(h // 1024) % 4],
+                 "idxdt": ["i8", "u1", "i2", "u2"][(h // 4096) % 4]}]
     if op.startswith("dc_"):
-        return [{}, {"inherit": True}] if len(case[1][0] if op != "dc_concat" else case[1][0][0]) > 1 else [{}]
+        x = {"listmask": bool(h & 1), "npint": bool(h & 2), "firstdt": [None, "u1", "i2"][(h // 4) % 3]}
+        return [dict(x), dict(x, inherit=True)] if len(case[1][0] if op != "dc_concat" else case[1][0][0]) > 1 else [x]
     if op == "rl_roundtrip":
         return [{"input": ["array", "list"][h % 2], "conv": ["asarray", "array"][(h // 2) % 2]}]
     RLV = ["from_array", "concat2", "concat3", "pieces", "ufunc", "astype", "derived", "derived2"]
     if op == "rl_getitem":
-        return [{"npint": bool(h & 1), "listkind": ["list", "array"][(h // 2) % 2], "via": "from_array"},
-                {"npint": bool(h & 1), "listkind": ["list", "array"][(h // 2) % 2], "via": RLV[1 + (h // 4) % 7], "maskvia": RLV[(h // 32) % 6]}]
+        idt = ["i8", "i1", "u1", "i2"][(h // 256) % 4]
+        return [{"npint": bool(h & 1), "listkind": ["list", "array"][(h // 2) % 2], "via": "from_array", "idxdt": idt},
+                {"npint": bool(h & 1), "listkind": ["list", "array"][(h // 2) % 2], "via": RLV[1 + (h // 4) % 7], "maskvia": RLV[(h // 32) % 6], "idxdt": idt}]
     if op in ("rl_ufunc", "rl_reduce"):
         hw = ["ufunc", "operator"][h % 2] if op == "rl_ufunc" else ["np", "method"][h % 2]
         return [{"how": hw, "via": "from_array", "share": True}, {"how": hw, "via": RLV[1 + (h // 4) % 7]}]
